@@ -594,6 +594,7 @@ package vm
 //@ func (d *cStateDb) DestroyAccount(addr common.Address)
 //@   requires d != nil && d.bankKeeper != nil && d.evmKeeper != nil
 //@   modifies acctExists[layer(d.currentCtx)], acctSeq[layer(d.currentCtx)], authVersion[layer(d.currentCtx)], acctTag[layer(d.currentCtx)], acctVestEnd[layer(d.currentCtx)], bankBal[layer(d.currentCtx)], bankSupply[layer(d.currentCtx)], evlog[payload(d.currentCtx.EventManager())], evmCodeHash[layer(d.currentCtx)], evmStorage[layer(d.currentCtx)]
+//@   ensures[C15.destroy_module_refused] !old(acctExists[layer(d.currentCtx)][addrBytes(addr)] && implements(acctTag[layer(d.currentCtx)][addrBytes(addr)], type(sdk.ModuleAccountI)))
 //@   ensures[C15.destroy_protected_refused] !old(acctProtectedAt(layer(d.currentCtx), addrBytes(addr), hdrTimeUnix(hdr(d.currentCtx))))
 //@   ensures[C15.destroy_account_record] !acctExists[layer(d.currentCtx)][addrBytes(addr)] && acctSeq[layer(d.currentCtx)][addrBytes(addr)] == 0 && (forall a bytes :: a != addrBytes(addr) ==> (acctExists[layer(d.currentCtx)][a] == old(acctExists[layer(d.currentCtx)][a]) && acctSeq[layer(d.currentCtx)][a] == old(acctSeq[layer(d.currentCtx)][a]) && acctTag[layer(d.currentCtx)][a] == old(acctTag[layer(d.currentCtx)][a]) && acctVestEnd[layer(d.currentCtx)][a] == old(acctVestEnd[layer(d.currentCtx)][a])))
 //@   ensures[C15.destroy_balances] forall a bytes, den string :: bankBal[layer(d.currentCtx)][a][den] == (a == addrBytes(addr) ? 0 : old(bankBal[layer(d.currentCtx)][a][den]))
@@ -610,6 +611,7 @@ package vm
 //@   requires d != nil && d.touched != nil && d.bankKeeper != nil && d.evmKeeper != nil
 //@   modifies contents(d.touched), acctExists[layer(d.currentCtx)], acctSeq[layer(d.currentCtx)], authVersion[layer(d.currentCtx)], acctTag[layer(d.currentCtx)], acctVestEnd[layer(d.currentCtx)], bankBal[layer(d.currentCtx)], bankSupply[layer(d.currentCtx)], evlog[payload(d.currentCtx.EventManager())], evmCodeHash[layer(d.currentCtx)], evmStorage[layer(d.currentCtx)]
 //@   ensures[C03.mut_touched] forall a common.Address :: (a in d.touched) == (a == address || old(a in d.touched))
+//@   ensures[C15.create_module_refused] !old(acctExists[layer(d.currentCtx)][addrBytes(address)] && implements(acctTag[layer(d.currentCtx)][addrBytes(address)], type(sdk.ModuleAccountI)))
 //@   ensures[C15.create_protected_refused] !old(acctProtectedAt(layer(d.currentCtx), addrBytes(address), hdrTimeUnix(hdr(d.currentCtx))))
 //@   ensures[C15.create_fresh_account] acctExists[layer(d.currentCtx)][addrBytes(address)] && acctSeq[layer(d.currentCtx)][addrBytes(address)] == 0 && evmCodeHash[layer(d.currentCtx)][addrBytes(address)] == zero(type(common.Hash))
 //@   ensures[C04.create_carries_balances] forall a bytes, den string :: bankBal[layer(d.currentCtx)][a][den] == old(bankBal[layer(d.currentCtx)][a][den])
